@@ -237,6 +237,42 @@ def run(ctx):
                 if second_tls and getattr(srv2, "auth_attempt", (None,))[0] != "LOGIN":
                     viol.append({"history": hist, "what": "second connection: mechanism not taken from its own post-TLS capabilities: %r" % (getattr(srv2, "auth_attempt", None),)})
 
+    # 2b'. … and when the SECOND connection's credentials are refused, the object is an unauthenticated client again, however
+    #      the first connection ended (quietly, with a logout, with a command that raised, with a refused command): every script
+    #      command raises Error and writes nothing
+    for between in ("nothing", "logout", "op", "raising-op", "refused-op", "local-refusal"):
+        for tls in (False, True):
+            s = msref.Session()
+            srv1 = refserver.RefServer(r, starttls=True, sasl=b"PLAIN", post_tls_sasl=b"PLAIN", version=(between != "local-refusal"))
+            o1 = s.connect(b"", [], "user", "pw", starttls=tls, server=srv1)
+            if between == "logout":
+                s.op("logout")
+            elif between == "op":
+                s.op("listscripts")
+            elif between == "raising-op":
+                srv1.faults = {"LISTSCRIPTS": "BYE"}
+                s.op("listscripts")
+            elif between == "refused-op":
+                s.op("deletescript", "no-such-script")
+            elif between == "local-refusal":
+                s.op("checkscript", "keep;")        # a server without VERSION: refused by the client itself
+            srv2 = refserver.RefServer(r, starttls=True, sasl=b"PLAIN", post_tls_sasl=b"PLAIN", users={b"user": b"changed"})
+            o2 = s.connect(b"", [], "user", "pw", starttls=tls, server=srv2)
+            nw = len(s.wire.writes)
+            evals += 1
+            nontriv += 1
+            hist = "connect (accepted) → %s → connect again, credentials refused (starttls=%s) → script commands" % (between, tls)
+            if "res=b1" in o2 or "auth=b1" in o2:
+                viol.append({"history": hist, "what": "the second connect reports success / an authenticated client although the credentials were refused: %s" % o2[:80]})
+            for op, args in SCRIPT_OPS:
+                o = s.op(op, *args)
+                if "res=error" not in o or len(s.wire.writes) != nw:
+                    viol.append({"history": hist, "op": op, "what": "%s on the refused connection: expected Error and no write, got %s, %d new write(s) %r" % (
+                        op, o.split(" ")[0], len(s.wire.writes) - nw, [b[:30] for _, b in s.wire.writes[nw:]])})
+                    break
+            if any("before authentication" in l for l in srv2.log):
+                viol.append({"history": hist, "what": "server saw a script command before authentication: %r" % srv2.log})
+
     # 2c. a reply that is merely slow (one read times out, the data arrives afterwards): whatever the client makes of the
     #     time-out, a late reply must never be taken for the answer to a later command — in particular not for the answer to
     #     AUTHENTICATE.  Judged on the real code against the reference server (the Lean client model has no clock).
